@@ -423,6 +423,7 @@ pub fn run(tier: Tier) -> i32 {
     let variants: &[(bool, bool)] = &[(false, true), (true, true), (false, false), (true, false)];
     let total = programs.len() * variants.len();
     rep.set("rule", json!(format!("All forests with <= {max_nodes} nodes and nesting <= {depth} over the items {{probe, <var v=1>, <var v=2 w=9>, <var v=${{v}}x>, swap <var v=$w w=$v>, forward reference, <reuse> of a probing template, <g v=5>..</g>, <g w=6>..</g>, <loop count=2>..</loop>, <if test=1>..</if>}}, each followed by a final probe and the forward-reference target, x template placement {{first, last}} x {{root <svg>, fragment}}; programs are enumerated smallest-first so every prefix of a program is itself explored. Oracle: reference interpreter for lexical scoping (innermost binding, g/reuse attribute scopes, var-in-content discarded at close, parallel assignment, undefined left verbatim; loop/if transparent) evaluated on the same item tree; state probe after each successful transform. Non-trivial = Ok, contains a scope or assignment, and either a deferral or >= 2 nodes.")));
+    rep.set("also_later", json!("Round 5 added pairs: what a waiting <var> assigns is read after its container (if, loop), unless assigned again since; reuse of the previous container."));
     rep.set("also", json!("Also: groups whose local is defined by a variable (<g w=\"$v\">) or in terms of the outer variable of the same name (<g v=\"${v}y\">), a <reuse> which is itself deferred, and four fixed scenarios (catch-all <defaults> next to <var>, group locals from expressions, evaluation where the group opens, nested shadowing). Second review round: values holding an undefined $name (read in another scope, through a reuse attribute, defined later), catch-all defaults next to reuse / reused group / group, and pairs of documents which differ only in whether an earlier element is retried (random draws)."));
     let st = run_space(total, |i| {
         let (tpl_last, root) = variants[i % variants.len()];
